@@ -632,6 +632,19 @@ func TestC10(t *testing.T) {
 				S.Root.Required = append(S.Root.Required, pn)
 			}
 		}
+		// two subschemas that are equal except for their numeric bounds and that become definitions of
+		// ONE name (in the main document and in another one, or under two spellings of the name in
+		// the main document): each referrer keeps its own range
+		wantSameNameBounds := rapid.IntRange(0, 9).Draw(rt, "samenamebounds") < 2
+		if wantSameNameBounds {
+			for i, lim := range [][2]float64{{1, 10}, {0, 1000}} {
+				lo, hi := lim[0], lim[1]
+				q := &model.Node{Kind: model.KObject, Props: []model.Prop{{Name: "amount", Node: &model.Node{Kind: model.KInteger, Minimum: &lo, Maximum: &hi}}, {Name: "unit", Node: &model.Node{Kind: model.KString}}}, Required: []string{"amount"}}
+				pn := []string{"zqorder", "zqstock"}[i]
+				S.Root.Props = append(S.Root.Props, model.Prop{Name: pn, Node: q})
+				S.Root.Required = append(S.Root.Required, pn)
+			}
+		}
 		cfg := baseConfig()
 		rb := &refBuilder{c: c, t: rt, modes: modes, sameNames: rapid.Bool().Draw(rt, "samedefnames")}
 		if rapid.IntRange(0, 2).Draw(rt, "resext") == 0 {
@@ -649,6 +662,31 @@ func TestC10(t *testing.T) {
 		forced := 0
 		if wantChain {
 			forced = rb.forceChain(R, mainDir)
+		}
+		if wantSameNameBounds {
+			twoSpellings := rapid.Bool().Draw(rt, "samenametwospellings")
+			for i, pn := range []string{"zqorder", "zqstock"} {
+				var slotp **model.Node
+				for k := range R.Root.Props {
+					if R.Root.Props[k].Name == pn {
+						slotp = &R.Root.Props[k].Node
+					}
+				}
+				q := *slotp
+				switch {
+				case i == 0:
+					R.Defs = append(R.Defs, model.Def{Name: "Quantity", Node: q})
+					*slotp = &model.Node{Kind: model.KRef, Ref: "#/$defs/Quantity", Target: q}
+				case twoSpellings:
+					R.Defs = append(R.Defs, model.Def{Name: "quantity", Node: q})
+					*slotp = &model.Node{Kind: model.KRef, Ref: "#/$defs/quantity", Target: q}
+				default:
+					home := rb.newFile(mainDir, q, "Quantity")
+					*slotp = &model.Node{Kind: model.KRef, Ref: rb.spellFileRef(mainDir, home.RelPath) + "#/$defs/Quantity", Target: q}
+				}
+			}
+			modes["samename.bounds_only"]++
+			forced++
 		}
 		if wantBranchRefs {
 			for i, pn := range brNames {
